@@ -104,6 +104,9 @@ type Interp struct {
 	Unwind       int
 	StubsHit     map[string]int
 	initMode     bool
+	ctxs         []*ctxSt
+	exploreOff   bool
+	TimerAnywhere bool
 }
 
 func NewInterp(prog *ssa.Program, ctx *smt.Ctx, sol *smt.Solver) *Interp {
@@ -121,6 +124,8 @@ func (in *Interp) resetRun() {
 	in.Cover = map[string]bool{}
 	in.ranks = nil
 	in.nameCnt = map[string]int{}
+	in.ctxs = nil
+	in.exploreOff = false
 	in.inputs = nil
 	in.obs = nil
 	in.schedTrace = nil
@@ -614,6 +619,9 @@ func (in *Interp) prepareCall(g *G, fr *Frame, call *ssa.CallCommon) (Value, []V
 }
 
 func (in *Interp) methodOf(t types.Type, m *types.Func) Value {
+	if t == ctxType {
+		return in.ctxMethod(m.Name())
+	}
 	if t == errType {
 		return Value{K: KFunc, R: &Intrinsic{Name: "opaqueError." + m.Name(), F: func(in *Interp, fr *Frame, args []Value) (Value, bool) {
 			return mkStr("<opaque error>"), true
@@ -715,7 +723,11 @@ func (in *Interp) Run(fn *ssa.Function) {
 			}
 		}
 		if !progressed {
-			panic(inconclusive{"deadlock (seq scheduler)"})
+			if in.fireTimer() {
+				continue
+			}
+			in.reportDeadlock()
+			panic(abortPath{"deadlock"})
 		}
 	}
 }
